@@ -42,16 +42,22 @@ template <typename V> inline Obs observe_plain(const V& v) {
         if (N > (1L << 22)) { o.bad_shape = true; return o; }
         o.data.reserve(N);
         size_t d = o.shape.size();
-        if (d == 0) {
-            // 0-dim view: element obtained with an empty index list where supported
-            if constexpr (meta::is_num_v<meta::remove_cvref_t<decltype(nm::apply_at(v, nmtools_list<size_t>{}))>>) o.data.push_back((double)nm::apply_at(v, nmtools_list<size_t>{}));
-            return o;
+        using shape_type = meta::remove_cvref_t<decltype(s)>;
+        constexpr auto FIXED_DIM = meta::len_v<shape_type>;
+        if constexpr (FIXED_DIM <= 0) {
+            if (d == 0) {   // 0-dim view: element obtained with an empty index list
+                o.data.push_back((double)nm::apply_at(v, nmtools_list<size_t>{}));
+                return o;
+            }
         }
-        nmtools_list<size_t> ix(d, 0);
-        for (long k = 0; k < N; k++) {
-            o.data.push_back((double)nm::apply_at(v, ix));
-            for (int a = (int)d - 1; a >= 0; a--) { if ((long)++ix[a] < o.shape[a]) break; ix[a] = 0; }
-        }
+        auto walk = [&](auto& ix) {
+            for (long k = 0; k < N; k++) {
+                o.data.push_back((double)nm::apply_at(v, ix));
+                for (int a = (int)d - 1; a >= 0; a--) { if ((long)++nm::at(ix, a) < o.shape[a]) break; nm::at(ix, a) = 0; }
+            }
+        };
+        if constexpr (FIXED_DIM > 0) { nmtools_array<size_t, (size_t)FIXED_DIM> ix{}; walk(ix); }   // fixed-dim views may only accept fixed-size index arrays
+        else { nmtools_list<size_t> ix(d, 0); walk(ix); }
         return o;
     }
 }
